@@ -347,3 +347,14 @@ func init() {
 	uni("IsLetter", unicode.IsLetter, [][2]int64{{65, 90}, {97, 122}})
 	uni("IsSpace", unicode.IsSpace, [][2]int64{{9, 13}, {32, 32}})
 }
+
+func init() {
+	intrinsics["strings.Count"] = func(m *Machine, fn *ssa.Function, a []Value) Value {
+		s, ok1 := forceLazy(a[0]).(string)
+		sub, ok2 := forceLazy(a[1]).(string)
+		if !ok1 || !ok2 {
+			unsupported("strings.Count on a symbolic string")
+		}
+		return int64(strings.Count(s, sub))
+	}
+}
